@@ -41,7 +41,79 @@ func fieldPathOf(v ssa.Value) string {
 
 func isEvalCall(m *Model, c *ssa.Call) bool {
 	sc := c.Call.StaticCallee()
-	return sc != nil && canonFnName(sc) == "Eval" && inPkg(sc, "evaluator") && sc.Signature.Recv() != nil
+	if sc != nil && canonFnName(sc) == "Eval" && inPkg(sc, "evaluator") && sc.Signature.Recv() != nil {
+		return true
+	}
+	return sc != nil && m.evalWrapper(sc) != 0
+}
+
+// evalWrapper: fn is `func (e) f(node, env) (Object, bool)` whose body is one call of Eval on its own parameters,
+// returned together with isError of that result (+1) or its negation (-1). 0 otherwise. Calls of such a wrapper are
+// evaluations like calls of Eval itself: the value is result #0 and result #1 is the error test already made.
+func (m *Model) evalWrapper(fn *ssa.Function) int {
+	if m.evalWrappers == nil {
+		m.evalWrappers = map[*ssa.Function]int{}
+	}
+	if v, ok := m.evalWrappers[fn]; ok {
+		return v
+	}
+	m.evalWrappers[fn] = 0
+	if fn.Blocks == nil || len(fn.Blocks) != 1 || !inPkg(fn, "evaluator") || fn.Signature.Results().Len() != 2 || !isBoolT(fn.Signature.Results().At(1).Type()) || len(fn.Params) != 3 {
+		return 0
+	}
+	ret, ok := fn.Blocks[0].Instrs[len(fn.Blocks[0].Instrs)-1].(*ssa.Return)
+	if !ok {
+		return 0
+	}
+	ev, ok := ret.Results[0].(*ssa.Call)
+	if !ok || ev.Call.StaticCallee() == nil || canonFnName(ev.Call.StaticCallee()) != "Eval" || !inPkg(ev.Call.StaticCallee(), "evaluator") {
+		return 0
+	}
+	if ev.Call.Args[1] != ssa.Value(fn.Params[1]) || ev.Call.Args[2] != ssa.Value(fn.Params[2]) {
+		return 0
+	}
+	pol := 1
+	v := ret.Results[1]
+	if u, isU := v.(*ssa.UnOp); isU && u.Op == token.NOT {
+		pol, v = -1, u.X
+	}
+	if c, isC := v.(*ssa.Call); isC && staticCalleeNamed(c, "evaluator", "isError") && c.Call.Args[0] == ssa.Value(ev) {
+		m.evalWrappers[fn] = pol
+		return pol
+	}
+	return 0
+}
+
+// evalValue: the object an evaluation call yields (the call itself for Eval, result #0 for a wrapper).
+func evalValue(m *Model, c *ssa.Call) ssa.Value {
+	if sc := c.Call.StaticCallee(); sc != nil && m.evalWrapper(sc) != 0 {
+		for _, r := range *c.Referrers() {
+			if ex, ok := r.(*ssa.Extract); ok && ex.Index == 0 {
+				return ex
+			}
+		}
+	}
+	return c
+}
+
+// wrapperErrorFact: f is the error verdict of the wrapper call that produced v; returns (isError holds?, ok).
+func wrapperErrorFact(m *Model, f Fact, v ssa.Value) (bool, bool) {
+	ex, ok := f.Cond.(*ssa.Extract)
+	if !ok || ex.Index != 1 {
+		return false, false
+	}
+	c, ok := ex.Tuple.(*ssa.Call)
+	if !ok || c.Call.StaticCallee() == nil {
+		return false, false
+	}
+	pol := m.evalWrapper(c.Call.StaticCallee())
+	if pol == 0 {
+		return false, false
+	}
+	if vx, isEx := v.(*ssa.Extract); !isEx || vx.Tuple != ssa.Value(c) || vx.Index != 0 {
+		return false, false
+	}
+	return f.Holds == (pol > 0), true
 }
 
 // evalCallsOn: calls e.Eval(x, env) in fn where x is a load whose field path ends in suffix.
@@ -68,7 +140,7 @@ func evalCallsOnInlined(m *Model, fn *ssa.Function, suffix string) []*ssa.Call {
 	seen := map[*ssa.Call]bool{}
 	m.walkInlined(fn, 2, func(in ssa.Instruction, resolve func(ssa.Value) ssa.Value, _ int) {
 		c, ok := in.(*ssa.Call)
-		if !ok || !isEvalCall(m, c) || len(c.Call.Args) < 2 || seen[c] {
+		if !ok || !isEvalCall(m, c) || len(c.Call.Args) < 2 || seen[c] || m.evalWrapper(c.Parent()) != 0 {
 			return
 		}
 		if strings.HasSuffix(fieldPathOf(resolve(stripIface(c.Call.Args[1]))), suffix) || strings.HasSuffix(fieldPathOf(c.Call.Args[1]), suffix) {
@@ -97,6 +169,11 @@ func truthFactOn(b *ssa.BasicBlock, v ssa.Value, want bool) bool {
 
 func errorFactOn(b *ssa.BasicBlock, v ssa.Value, want bool) bool {
 	for _, f := range expandFacts(factsAt(b)) {
+		if curModel != nil {
+			if isErr, ok := wrapperErrorFact(curModel, f, v); ok && isErr == want {
+				return true
+			}
+		}
 		c, ok := f.Cond.(*ssa.Call)
 		if ok && staticCalleeNamed(c, "evaluator", "isError") && len(c.Call.Args) == 1 && c.Call.Args[0] == v && f.Holds == want {
 			return true
@@ -318,7 +395,7 @@ func (m *Model) RunTruthUsers(s *Sink, rule string) {
 		for _, c := range calls {
 			bad := ""
 			nTruthy := 0
-			for _, r := range *c.Referrers() {
+			for _, r := range *evalValue(m, c).Referrers() {
 				switch x := r.(type) {
 				case *ssa.Call:
 					switch {
@@ -499,12 +576,12 @@ func (m *Model) RunBranch(s *Sink, rule string) {
 		s.Undecided(rule, tk+"|shape", m.Pos(tf.Pos()), "expected one evaluation each of Condition, Consequence and Alternative (directly or as one arm of a selected operand)")
 		return
 	}
-	if truthFactIn(tcons[0].facts, tc[0], true) && errorFactIn(tcons[0].facts, tc[0], false) {
+	if truthFactIn(tcons[0].facts, evalValue(m, tc[0]), true) && errorFactIn(tcons[0].facts, evalValue(m, tc[0]), false) {
 		s.OK(rule, tk+"|consequence under truthy condition", m.InstrPos(tcons[0].call), "evaluated (or selected for evaluation) under isTruthy(condition) true")
 	} else {
 		s.Violation(rule, tk+"|consequence under truthy condition", m.InstrPos(tcons[0].call), "the ternary's consequence is not evaluated exactly under isTruthy(condition)")
 	}
-	if truthFactIn(talt[0].facts, tc[0], false) && errorFactIn(talt[0].facts, tc[0], false) {
+	if truthFactIn(talt[0].facts, evalValue(m, tc[0]), false) && errorFactIn(talt[0].facts, evalValue(m, tc[0]), false) {
 		s.OK(rule, tk+"|alternative under falsy condition", m.InstrPos(talt[0].call), "evaluated (or selected for evaluation) under isTruthy(condition) false")
 	} else {
 		s.Violation(rule, tk+"|alternative under falsy condition", m.InstrPos(talt[0].call), "the ternary's else part is not evaluated exactly under !isTruthy(condition)")
@@ -563,6 +640,11 @@ func truthFactIn(facts []Fact, v ssa.Value, want bool) bool {
 
 func errorFactIn(facts []Fact, v ssa.Value, want bool) bool {
 	for _, f := range facts {
+		if curModel != nil {
+			if isErr, ok := wrapperErrorFact(curModel, f, v); ok && isErr == want {
+				return true
+			}
+		}
 		c, ok := f.Cond.(*ssa.Call)
 		if ok && staticCalleeNamed(c, "evaluator", "isError") && len(c.Call.Args) == 1 && c.Call.Args[0] == v && f.Holds == want {
 			return true
